@@ -119,6 +119,19 @@ def template(node, env, nl_attrs=(), depth=0):
                 if v.format_spec is not None:
                     fmt = "".join(x.value for x in v.format_spec.values if isinstance(x, ast.Constant))
                 inner = v.value
+                # f'{S}' with S a string-valued expression (join, nested f-string, str(), concatenation) is S itself
+                if not fmt and v.conversion == -1 and (
+                        isinstance(inner, ast.JoinedStr) or
+                        (isinstance(inner, ast.Constant) and isinstance(inner.value, str)) or
+                        (isinstance(inner, ast.Call) and isinstance(inner.func, ast.Attribute) and inner.func.attr == "join"
+                         and isinstance(inner.func.value, ast.Constant)) or
+                        (isinstance(inner, ast.Call) and isinstance(inner.func, ast.Name) and inner.func.id == "str"
+                         and len(inner.args) == 1)):
+                    try:
+                        out += template(inner, env, nl_attrs, depth + 1)
+                        continue
+                    except TemplateError:
+                        pass
                 if not fmt and isinstance(inner, ast.Name):
                     n2, e2 = resolve(inner, env)
                     if n2 is not inner and (isinstance(n2, ast.JoinedStr) or (
